@@ -402,6 +402,22 @@ class NoCopy:
         return '@NOCOPY'
 
 
+class Outcome:
+    """A plain value that happens to have an attribute called ``result`` (a record of what a step measured)."""
+
+    def __init__(self):
+        self.result = 6
+        self.log = ['measured']
+
+    def __eq__(self, other):
+        return isinstance(other, Outcome)
+
+    __hash__ = object.__hash__
+
+    def __repr__(self):
+        return '@HASRESULT'
+
+
 class ExcValue(Exception):
     """An exception object that is somebody's *result* (an error reported as a value, ``gather(return_exceptions=True)`` style)."""
 
@@ -454,6 +470,8 @@ def special(value):
             return _FutureMarker()  # (asked for outside any loop, for the expected trace only: it prints the same)
     if isinstance(value, str) and value == '@EXCOBJ':
         return ProgError('an exception object handed over as a value')
+    if isinstance(value, str) and value == '@HASRESULT':
+        return Outcome()
     if isinstance(value, str) and value == '@EXCVAL':
         return ExcValue('reported as a value, not raised')
     if isinstance(value, str) and value == '@T12':
